@@ -87,7 +87,7 @@ def step (st : State) (w : List String) : State × String :=
   | ["lease", obs, ns, ds, cut, ck, key, now2] =>
     match obs.toInt?, ns.toNat?, parseList ds, parseT cut, ck.toNat?, key.toNat?, now2.toInt? with
     | some obs, some ns, some ds, some cut, some ck, some key, some now2 =>
-      let c := childCut cut ck obs ns ds key
+      let c := childCut maxTTL cut ck obs ns ds key
       let ac := ({} : ACache).setUntil maxTTL now2 key 1 c.1
       let stored := match ac.get now2 key with
         | .ok d => toString d.expiresAt
